@@ -19,7 +19,7 @@ def build(prop, params):
     s = params['seed']
     r = stream(s, 'config')
     k = params['i'] % 10
-    if (prop == 'C02' and k in (0, 1, 2, 3, 4, 5)) or (prop == 'C08' and k in (0, 1)):
+    if (prop == 'C02' and k in (0, 1, 2, 3, 4, 5)) or (prop == 'C08' and k in (0, 1, 2, 3)):
         rp = stream(s, 'program')
         prog = const_program(rp)
         text, pr = to_text(prog)
